@@ -35,6 +35,11 @@ VARIANTS = {
         '-fsanitize=address,undefined', '-fno-sanitize=nonnull-attribute',
         '-fno-sanitize-recover=undefined', '-shared-libasan', '-UNDEBUG',
         '-DBTREES_VERIF=1', '-fno-strict-aliasing', '-w']),
+    # line/branch coverage of the C templates under the checks' workloads
+    # (tools/cov_report.py): never used for a verdict
+    'cov': dict(cc='gcc', flags=['-O0', '-g', '--coverage', '-UNDEBUG',
+                                 '-DBTREES_VERIF=1', '-fno-strict-aliasing',
+                                 '-w']),
     'plain': dict(cc='gcc', flags=['-O2', '-DNDEBUG', '-fno-strict-aliasing',
                                    '-w']),
 }
@@ -95,7 +100,7 @@ def _prune(keep):
     except FileNotFoundError:
         return
     ents.sort(key=lambda p: os.path.getmtime(p))
-    while len(ents) > 8:
+    while len(ents) > 14:
         victim = ents.pop(0)
         if victim == keep:
             continue
@@ -158,6 +163,9 @@ def get_build(variant='mon', root=None, quiet=True):
 
 def worker_env(variant='mon', root=None, logdir=None):
     """Environment for a worker process importing the given build."""
+    force = os.environ.get('VMON_FORCE_VARIANT')
+    if force:
+        variant = force
     bdir = get_build(variant, root)
     env = dict(os.environ)
     env['PYTHONPATH'] = bdir + os.pathsep + VERIF
